@@ -180,14 +180,14 @@ PROPS = dict(
         assumptions=['stand-in declarations for the packet structs AckLog only moves (never inspects)'],
     ),
     C07=dict(
-        verus=['cstate4'], kani=['rumqttc'], native=['rumqttc'],
+        verus=['cstate4', 'cstate5'], kani=['rumqttc'], native=['rumqttc'],
         scope='rumqttc MqttState v4+v5: next_pkid (complete: all limits), outgoing_publish / subscribe / unsubscribe / pubrel id range and freshness, inflight counter exact (inflight == occupied slots + pending releases), collision only while the id is held, v5 CONNACK receive-maximum',
         residual='the select! guard `!inflight_full && !collision` and "resumes as soon as an ack frees the window" are async event-loop code (unverified composition); the state-level facts they rely on are the obligations here',
         trusted_base=_CLIENT_STATE_VERUS + _CLIENT_STATE_TRUSTED,
         assumptions=['Kani harnesses bounded in table size (max_inflight) only: quick n=2 (outgoing_publish n=1,2), thorough n=1..3; next_pkid is complete for all limits 1..=65535.  The Verus unit (v4) has no such bound'],
     ),
     C10=dict(
-        verus=['cstate4'], kani=['rumqttc'], native=['rumqttc'],
+        verus=['cstate4', 'cstate5'], kani=['rumqttc'], native=['rumqttc'],
         scope='rumqttc MqttState v4+v5: handle_incoming_{publish,pubrel,puback,pubrec,pubcomp}, outgoing_{puback,pubrec,disconnect,subscribe,unsubscribe,ping}: reply kind/id, manual_acks, unsolicited acks are errors with bookkeeping unchanged, exactly one Outgoing event per written packet',
         residual='Network::readb batching / flush and the order in which EventLoop pops events are async code (unverified composition); the v4 handle_incoming_packet / handle_outgoing_packet dispatchers are under Verus contract (unit cstate4); the v5 dispatchers (Instant::now + large enum clone: outside CBMC reach in reasonable time) are covered by the bounded native stand-in events_mirror_the_wire_exactly (all histories of 3 steps over 22 request/packet kinds)',
         trusted_base=_CLIENT_STATE_VERUS + _CLIENT_STATE_TRUSTED,
@@ -202,7 +202,7 @@ PROPS = dict(
         assumptions=['BOUNDED stand-in: CBMC cannot inspect the Vec<Request> returned by clean() (stack overflow / OOM, measured), so the contract of clean() is checked by exhaustive native enumeration of all well-formed states with max_inflight <= 3 (quick) / 4 (thorough) and all scripts of length <= 9 / 12'],
     ),
     C18=dict(
-        verus=['cstate4'], kani=['rumqttc'],
+        verus=['cstate4', 'cstate5'], kani=['rumqttc'],
         scope='REDUCED SCOPE: the ping-flag protocol of MqttState v4+v5 only (outgoing_ping, handle_incoming_pingresp, clean): an unanswered PINGREQ is reported at the next ping, an answered one never is, collision timeout after two pings',
         residual='"at least once per keep-alive interval", "no later than the second interval", keep-alive zero never pings, connect timeout: all live in tokio::select!/time::timeout branches; no contract within reach of Verus or Kani expresses virtual time — NOT decided',
         trusted_base=_CLIENT_STATE_VERUS + _CLIENT_STATE_TRUSTED + ['std::time::Instant::now stubbed (FFI clock)'],
@@ -223,7 +223,7 @@ PROPS = dict(
         assumptions=['BOUNDED stand-in (no deductive verifier here reasons about str): exhaustive over the stated finite space, not a proof for longer strings'],
     ),
     C02=dict(
-        verus=['cstate4'], kani=['rumqttc'], native=['rumqttc'],
+        verus=['cstate4', 'cstate5'], kani=['rumqttc'], native=['rumqttc'],
         scope='rumqttc MqttState (v4): handle_incoming_{puback,pubrec,pubcomp}, outgoing_publish, outgoing_pubrel/save_pubrel and both dispatchers — Verus contracts over ALL well-formed states, unbounded in max_inflight (unit cstate4); the same inductive steps plus clean() again by Kani at bounded table size (v4 and v5)',
         residual='EventLoop::{clean,poll,select,next_request} and Network are async (tokio::select!, Framed): that clean() runs on every error, that pending is kept iff session_present and drained before the channel is an unverified composition',
         trusted_base=_CLIENT_STATE_VERUS + _CLIENT_STATE_TRUSTED,
